@@ -103,6 +103,31 @@ func (e *Engine) VerifyUnit(c *Contract) (r *FnRun) {
 				r.Trusted["A-GLOBAL: package-level variables are assigned only in init (checked syntactically) and their slices/maps are not mutated: "+gi.Src] = true
 			}
 		}
+		// invariants of the packages this one imports (their initialisers ran first; each is proved in its own init unit)
+		imported := map[string]bool{}
+		var walk func(p *types.Package)
+		walk = func(p *types.Package) {
+			for _, q := range p.Imports() {
+				if !imported[q.Path()] {
+					imported[q.Path()] = true
+					walk(q)
+				}
+			}
+		}
+		walk(pkgOf(fn))
+		for _, path := range sortedKeys(e.DB.GlobalInvs) {
+			if !imported[path] {
+				continue
+			}
+			octx := fr.ctxHere()
+			octx.pkgPath = path
+			for _, gi := range e.DB.GlobalInvs[path] {
+				if t, ok := octx.tryBool(gi.E); ok {
+					fr.assume(t)
+					r.Trusted["A-GLOBAL ("+path+"): "+gi.Src] = true
+				}
+			}
+		}
 	}
 	for _, rq := range c.Requires {
 		fr.assume(ctx.Bool(rq.E))
